@@ -41,10 +41,16 @@ KnownBehs(c) == \A ep \in EPs : c.beh[ep] \in AllBeh /\ c.beh2[ep] \in AllBeh
 \* the part of a contact sequence the mocks can see
 Proj(st, c) == SelectSeq(c, LAMBDA ep : st.beh[ep] # "Refused")
 
+\* The statement orders the protocols; it does not forbid asking the same endpoint again before moving on
+\* (how often one protocol is retried is C14's subject): adjacent repeats in the request log are one contact.
+RECURSIVE Collapse(_)
+Collapse(q) == IF Len(q) <= 1 THEN q
+               ELSE IF q[1] = q[2] THEN Collapse(Tail(q)) ELSE <<q[1]>> \o Collapse(Tail(q))
+
 Matches(e, st, o) ==
   /\ o.res = e.res.class
   /\ o.res = "ok" => o.doc = e.res.digest
-  /\ Proj(st, o.contacted) = e.contacted
+  /\ Proj(st, o.contacted) = Collapse(e.contacted)
 
 \* [kind |-> "ok" | "dev" | "viol", dev |-> id, st |-> next abstract state]
 JudgeQuery(e) ==
